@@ -37,10 +37,13 @@ Clause ==
             IF ScoresOf(e.scores) # ScoreTotals(RemoveScored(SP, W), C \ W) THEN "Round1Totals"
             ELSE IF SBagOf(e.bag) # RemoveScored(SP, W) THEN "Round1Profile"
             ELSE ""
+(* how many different results the specification allows for this input (1 unless a random tiebreak is needed; 0 if the input is refused *)
+(* or the boundary tie is unbroken): the harness requires the real code, over all outcomes of its random draws, to produce exactly as many *)
+NumOutcomes == IF ~Valid THEN 0 ELSE Cardinality({o \in Outcomes(SP, C, Cfg) : ~o.err})
 TInit == tid \in 1..Len(Traces) /\ done = FALSE
 Advance == /\ ~done
            /\ Write([tid |-> T.id, kind |-> "final", l |-> 0, nrej |-> IF Clause = "" THEN 0 ELSE 1, clause |-> Clause,
-                     status |-> T.cfg.rule, rule |-> T.cfg.rule, flags |-> <<>>])
+                     status |-> T.cfg.rule, rule |-> T.cfg.rule, flags |-> <<>>, nout |-> NumOutcomes])
            /\ done' = TRUE /\ UNCHANGED tid
 TSpec == TInit /\ [][Advance]_<<tid, done>>
 =============================================================================
